@@ -181,9 +181,26 @@ func main() {
 				MaxPagesTotal   int   `json:"max_pages_total"`
 				Seq             []int `json:"seq"`
 				Cuts            []int `json:"cuts"`
+				Family          string   `json:"family"`
+				Isns            []uint32 `json:"isns"`
 			} `json:"replay"`
 		}
 		report.ReadJSON(rp, &f)
+		if f.Replay.Family == "multiconn" {
+			h := &mcHarness{}
+			h.reset()
+			cfg := mcConfig{perConn: f.Replay.MaxPagesPerConn, total: f.Replay.MaxPagesTotal}
+			copy(cfg.isn[:], f.Replay.Isns)
+			ma := mcAlphabet(r.Thorough())
+			fmt.Println("replaying", mcDescribe(cfg, ma, f.Replay.Seq))
+			hs := h.run(cfg, ma, f.Replay.Seq)
+			if hs.viol != "" {
+				fmt.Println("REPRODUCED", hs.viol, hs.what)
+				os.Exit(1)
+			}
+			fmt.Println("no violation reproduced")
+			os.Exit(0)
+		}
 		if len(f.Replay.Cuts) > 0 {
 			alpha = tm.AlphabetCuts(f.Replay.Cuts, true, false)
 			cutsOf = f.Replay.Cuts
@@ -226,7 +243,7 @@ func main() {
 	// for a gap in front, a queued segment behind and a segment in between
 	mpCuts := []int{0, 100, 2100, 2200, 2300}
 	mpIsns := []uint32{1000, uint32(uint64(1)<<32 - 1200)}
-	mpLimits := [][2]int{{0, 0}, {3, 0}}
+	mpLimits := [][2]int{{0, 0}, {3, 0}, {0, 1}, {0, 2}} // total budgets that a multi-page segment exhausts at once and that stay exhausted after one page was forced out
 	if r.Thorough() {
 		mpCuts = []int{0, 100, 1100, 2100, 4100, 4200, 4300}
 		mpIsns = append(mpIsns, 1<<31-1200)
@@ -308,6 +325,80 @@ func main() {
 		}
 	}
 	cutsOf = nil
+	// multi-connection family: three connections through one assembler in every order
+	{
+		ma := mcAlphabet(r.Thorough())
+		mdepth := 7
+		mhs := make([]*mcHarness, workers)
+		for i := range mhs {
+			mhs[i] = &mcHarness{}
+			mhs[i].reset()
+		}
+		var mcCfg mcConfig
+		statex.OnHang = func(seq []int) {
+			r.Violation("hang|a history does not terminate", fmt.Sprintf("no progress for %v on one history; %s", statex.HangAfter, mcCfg), 0, mcDescribe(mcCfg, ma, seq))
+			for _, l := range hangLocals {
+				r.MergeLocal(l)
+			}
+			r.Exhaustive = false
+			r.Coverage["states"], r.Coverage["transitions"], r.Coverage["traces_validated_against_impl"] = 1, 1, 0
+			r.Coverage["samples"] = []any{mcDescribe(mcCfg, ma, seq)}
+			r.Finish()
+		}
+		ran := make([]int64, workers)
+		for _, cfg := range mcConfigs(r.Thorough()) {
+			cfg := cfg
+			mcCfg = cfg
+			local := make([]map[string]struct{}, workers)
+			for i := range local {
+				local[i] = map[string]struct{}{}
+			}
+			_, complete := statex.Sequences(len(ma), mdepth, workers, r.Expired, func(w int, seq []int) {
+				if !mcCanonical(ma, seq) {
+					return
+				}
+				ran[w]++
+				h := mhs[w].run(cfg, ma, seq)
+				sig := "multiconn"
+				for c := range h.conns {
+					if len(h.conns[c].insts) > 0 {
+						in := h.conns[c].insts[0]
+						deliveries[w] += int64(in.Deliveries)
+						if in.Strict {
+							strict[w]++
+						}
+						sig += fmt.Sprintf("/%d.%d.%v.%v.%d", in.Pos, in.Deliveries, in.Strict, in.Ended, len(h.conns[c].insts))
+					}
+				}
+				local[w][sig] = struct{}{}
+				if h.viol != "" {
+					key := fmt.Sprintf("c10|%s|multiconn|limit=%v", h.viol, cfg.perConn+cfg.total > 0)
+					locals[w].Add(key, int64(len(seq)), func() (string, any) {
+						d := mcDescribe(cfg, ma, seq)
+						return h.what + "; " + cfg.String() + fmt.Sprintf("; events %v", d["events"]), d
+					})
+				}
+			})
+			if !complete {
+				r.Exhaustive = false
+			}
+			mu.Lock()
+			for _, l := range local {
+				for k := range l {
+					outcomes[k] = struct{}{}
+				}
+			}
+			mu.Unlock()
+		}
+		var mcTotal int64
+		for _, x := range ran {
+			mcTotal += x
+		}
+		total += mcTotal
+		transitions += mcTotal * int64(mdepth+1)
+		famNotes = append(famNotes, fmt.Sprintf("multiconn: %d connections of 4-byte streams through one assembler, per-connection letters %v, every history of %d events in which the connections are introduced in ascending order (%d histories), ISN assignments and page limits %v; each connection carries different bytes at equal offsets; the order oracle is applied to every connection after every event", mcConns, mcLetters(r.Thorough()), mdepth, mcTotal, mcConfigs(r.Thorough())))
+		samples = append(samples, mcDescribe(mcConfigs(false)[0], ma, []int{0, 4, 5, 7, 1, 8, 9}))
+	}
 	for _, l := range locals {
 		r.MergeLocal(l)
 	}
